@@ -20,7 +20,10 @@ pub open spec fn lex(k1: int, s1: u64, k2: int, s2: u64) -> Ordering {
 pub fn cmp_key_u64(a: &Key, b: u64, c: &Key, d: u64) -> (r: Ordering) ensures r == lex(a.rank(), b, c.rank(), d) { unimplemented!() }
 /// std::cmp::Reverse on a borrowed seqno
 pub struct Rev { pub v: u64 }
-pub fn rev(x: &u64) -> (r: Rev) ensures r.v == *x { Rev { v: *x } }
+pub trait AsU64: Sized { spec fn val(self) -> u64; fn get(self) -> (r: u64) ensures r == self.val(); }
+impl AsU64 for u64 { open spec fn val(self) -> u64 { self } fn get(self) -> (r: u64) { self } }
+impl AsU64 for &u64 { open spec fn val(self) -> u64 { *self } fn get(self) -> (r: u64) { *self } }
+pub fn rev<T: AsU64>(x: T) -> (r: Rev) ensures r.v == x.val() { Rev { v: x.get() } }
 /// TRUSTED: `(a, Reverse(b)).cmp(&(c, Reverse(d)))` = lexicographic with the second component reversed
 #[verifier::external_body]
 pub fn cmp_key_rev(a: &Key, b: Rev, c: &Key, d: Rev) -> (r: Ordering) ensures r == lex(a.rank(), d.v, c.rank(), b.v) { unimplemented!() }
